@@ -90,6 +90,8 @@ let predict (c : string) (obs : string) : string * string * bool =
       let _ka = next () in
       let _inst = num () in
       let tgt = next () in
+      let _preload = next () in
+      let _resp = next () in
       let cfg = parse_kvs (num ()) in
       let items = List.init (num ()) (fun _ -> parse_item ()) in
       let g = { g_ssl = ssl; g_target_host = bytes_of_string (if tgt = "name" then "localhost" else "127.0.0.1");
